@@ -189,4 +189,18 @@ PROPS = {
             "for gzip request bodies cut short only 'a prefix of the messages, then a non-EOF error' is asserted",
         ],
     },
+    "C08": {
+        "pkg": "c08",
+        "stages": [{"run": "^TestProp$", "quick": (3000, 4), "thorough": (40000, 16)},
+                   {"run": "^TestPropWS$", "quick": (150, 2), "thorough": (1500, 8)}],
+        "technique": "property-based testing (rapid): messages with exactly controlled encoded size around configured limits across the protocol x codec x compression matrix; recording handlers as over-limit oracle, success as no-spurious-refusal oracle",
+        "level_text": "Generated-input search: request and reply messages whose encoded size is exactly L-1, L, L+1, 4L, 64L or 1 MiB (compressible padding, so gzip frames stay far "
+                      "below the limit) on HTTP unary/streaming JSON and protobuf, gzip request bodies, HttpBody unary/chunked, gRPC, gRPC-web(-text) with and without per-message gzip, "
+                      "WebSocket, plus hand-written varint prefixes up to 2^64-1: no handler may observe a message over the receive limit, and nothing within the limits may be refused. Exploration only.",
+        "level_note": "Encoded sizes are exact by construction (padding solved per codec); JSON bodies are written compactly by the harness; replies over the send limit are not asserted.",
+        "rule": "rapid draws cell, receive limit L in [32,4096], send limit S (default, 4L, around L, or in [L,4L]), 1-4 request messages of which one has a boundary size "
+                "(L-1, L, L+1, 4L, 64L, 1 MiB) and a reply sized around S or just above L. Non-trivial = a size within +-1 of a limit, or an over-limit message that is compressed below "
+                "the limit, or a raw length prefix; distinct = (cell, per-message boundary class, L, S, reply size, prefix).",
+        "assumptions": ["HttpBody chunked uploads are framed, not refused: there the oracle is 'every chunk <= L'"],
+    },
 }
